@@ -18,12 +18,12 @@ def gen(f, P='{"p1","p2"}', K=2, sh='ShOk1', faults=2, crashes=1, inline=0, inte
 # exhaustive, repaired design
 gen('MC_Log_quick.cfg')                                                     # 2x2, <=2 faults, <=1 crash
 gen('MC_Log_inline_quick.cfg', faults=1, crashes=1, inline=2)               # threshold-triggered flush inside AppendBatch
-gen('MC_Log_read_quick.cfg', K=1, P='{"p1","p2","p3"}', sh='ShOk12', faults=0, crashes=0, interval=2, mbs='{0,1,80,200}', invs=CORE + " " + READ)
+gen('MC_Log_read_quick.cfg', K=1, P='{"p1","p2","p3"}', sh='ShOk12', faults=0, crashes=0, interval=2, mbs='{0,9,80,200}', invs=CORE + " " + READ)
 gen('MC_Log_crashread_quick.cfg', K=1, P='{"p1","p2","p3"}', sh='ShOk1', faults=1, crashes=1, interval=2, mbs='{80}', invs=CORE + " " + READ)
 gen('MC_Log_shapes_quick.cfg', sh='ShAll', faults=0, crashes=1)
 gen('MC_Log_thorough.cfg', sh='ShOk12')
 gen('MC_Log_3p_thorough.cfg', P='{"p1","p2","p3"}', K=1, faults=2, crashes=1)
-gen('MC_Log_read_thorough.cfg', sh='ShOk12', faults=1, crashes=1, interval=2, mbs='{0,1,80,200}', invs=CORE + " " + READ)
+gen('MC_Log_read_thorough.cfg', sh='ShOk12', faults=1, crashes=1, interval=2, mbs='{0,9,80,200}', invs=CORE + " " + READ)
 # named deviations: each must make TLC report the stated invariant
 DEV = {
     'NoRestore': (dict(FixRestore='FALSE'), 'C01_AckedDurable', {}),
@@ -32,7 +32,7 @@ DEV = {
     'NoPublish': (dict(FixPublish='FALSE'), 'C05_NotAhead', dict(faults=0, crashes=0)),
     'NoMonotone': (dict(FixMonotone='FALSE'), 'C05_Monotone', dict(faults=0, crashes=0)),
     'NoReadOrder': (dict(FixReadOrder='FALSE'), 'C03_FetchExact', dict(faults=0, crashes=0, mbs='{80}')),
-    'NoRange': (dict(FixRange='FALSE'), 'C04_Progress', dict(faults=0, crashes=0, interval=2, sh='ShOk12', mbs='{1,80}')),
+    'NoRange': (dict(FixRange='FALSE'), 'C04_Progress', dict(faults=0, crashes=0, interval=2, sh='ShOk12', mbs='{9,80}')),
     'NoValidateNeg': (dict(FixValidate='FALSE'), 'C02_Monotone', dict(faults=0, crashes=0, sh='ShAll')),
     'NoValidateDup': (dict(FixValidate='FALSE'), 'C02_Unique', dict(faults=0, crashes=0, sh='ShAll')),
     'NoWait': (dict(DevNoWait='TRUE'), 'C01_AckedDurable', {}),
